@@ -22,6 +22,12 @@ theorem C12_roundtrip_rule_field (f : RuleField) (h : TvWF f.tv) : RuleField.fro
 
 theorem C12_roundtrip_rule (r : Rule) (h : RuleWF r) : Rule.fromJson r.toJson = .ok r := rule_roundtrip r h
 
+/-- parsed descriptors: a field descriptor and a whole packet descriptor (direction, fields, payload, raw) come back
+    literally (the serialised `length` is redundant with `raw` and is not read back) -/
+theorem C12_roundtrip_field (f : Field) : Field.fromJson f.toJson = .ok f := field_roundtrip f
+
+theorem C12_roundtrip_packet (p : Packet) : Packet.fromJson p.toJson = .ok p := packet_roundtrip p
+
 theorem C12_roundtrip_context (c : Context) (h : ∀ r ∈ c.ruleset, RuleWF r) : Context.fromJson c.toJson = .ok c := context_roundtrip c h
 
 /-- serialising the reloaded context gives the same JSON again -/
